@@ -1,11 +1,39 @@
-"""C12 — rules not implemented yet (fail closed)."""
-EXPLANATION = "not implemented"
-NOT_DECIDED = "everything"
+"""C12 — a level-limited load returns the tree truncated at that level, without holes."""
+from __future__ import annotations
+
+from . import io_rules as io
+from . import io_rules2 as io2
+from . import loader_rules as lr
+
+EXPLANATION = (
+    "Static rules: (R1) the level cap is live: key-domain propagation — _select is keyed by reader kind ({mesh, part, sink} "
+    "from the kind literals of the reader constructors), so every literal used to test or subscript it must be a kind; the "
+    "call of find_max_amr_level is reachable and guarded only by the presence of a level predicate; (R2) its result is "
+    "stored in meta['lmax'], which bounds the level loop and is the lmax of the leaf rule (truth table: cells at the deepest "
+    "loaded level are leaves whatever their son index says); (R3) find_max_amr_level is folded over level predicates "
+    "(l<=k, l<k, a<=l<b, l==k, l>=a) on a list model of numpy and must return the highest accepted level; "
+    "hilbert pre-selection receives both lmax and levelmax.")
+NOT_DECIDED = "that the returned cells tile the domain exactly once (follows from the leaf rule and the tree being a tree; argued)"
+TRUSTED = ("CPython ast", "list model of np.arange/argwhere/ravel/max")
+TECHNIQUE = "static analysis: key-domain (dead guard) propagation, def-use of the level cap, finite-case folding"
 
 
-def not_implemented(run, tree):
-    run.rule("C12.R0", "stub")
-    run.unresolved("stub", "", "rules for C12 are not implemented yet")
+def r1_r2(run, tree):
+    run.rule("C12.R1", "level cap live and stored (key domain, reachability, data flow)", "key-domain propagation", "", floor=4)
+    lr.check_level_cap_live(run, tree)
+    lr.check_lmax_reset(run, tree)
+    io.check_skeleton(run, tree)
 
 
-RULES = [not_implemented]
+def r2_leaf(run, tree):
+    run.rule("C12.R2", "cells at the cap level are leaves", "D7", "", floor=5)
+    io2.check_leaf_rule(run, tree)
+
+
+def r3(run, tree):
+    run.rule("C12.R3", "find_max_amr_level returns the highest accepted level", "D7 on a list model", "", floor=6)
+    lr.check_find_max_level(run, tree)
+    lr.check_hilbert_cpu_list(run, tree)
+
+
+RULES = [r1_r2, r2_leaf, r3]
